@@ -369,6 +369,34 @@ def gen_op(rng, w, specs):
     return op
 
 
+def scripted_composite(rng, specs):
+    """child with buffered state, composite of it, call/update, in-place edit, an invalidating operation on the
+    COMPOSITE, then direct access (no __call__) to composite and child"""
+    kind = rng.choice(["svf", "ffd", "svffd", "disp"])
+    g = rng.choice([0, 1, 3, 4, 6])
+    h = [{"op": "new", "kind": kind, "grid": g, "pk": rng.choice(["tensor", "ptensor", "param"])}]
+    if h[0]["pk"] != "param":
+        h[0]["val"], h[0]["gfor"] = [dy(rng), dy(rng)], g
+    members = [0]
+    if rng.random() < 0.4:
+        h.append({"op": "new", "kind": rng.choice(["lin", "svf"]), "grid": g, "pk": "tensor", "val": [dy(rng), dy(rng)], "gfor": g})
+        members = [0, 1] if rng.random() < 0.5 else [1, 0]
+    h.append({"op": "seq", "members": members})
+    c = len(h) - 1
+    h.append({"op": rng.choice(["call", "update"]), "o": c})
+    h.append({"op": "edit", "o": 0, "val": [dy(rng), dy(rng)]})
+    k = rng.choice(["clear", "clear", "cond_", "grid_"])
+    op = {"op": k, "o": c}
+    if k == "cond_":
+        op["c"] = [rng.randint(1, 6), g]
+    if k == "grid_":
+        op["grid"] = rng.choice([q for q in (0, 1, 3, 4, 6) if q != g])
+    h.append(op)
+    for _ in range(rng.randint(1, 2)):
+        h.append({"op": rng.choice(["disp", "tensor"]), "o": rng.choice([c, c, 0])})
+    return h
+
+
 def generate(p):
     FOCUS["mode"] = p.get("focus")
     rng = random.Random(p["seed"])
@@ -379,7 +407,11 @@ def generate(p):
         w = World(grids)
         h, res = [], []
         L = rng.randint(3, p["maxlen"])
-        for _ in range(rng.choice([1, 1, 2, 3])):
+        if FOCUS["mode"] is None and rng.random() < 0.12:
+            for op in scripted_composite(rng, specs):
+                h.append(op)
+                res.append(run_op(w, op))
+        for _ in range(rng.choice([1, 1, 2, 3]) if not h else 0):
             op = gen_new(rng, grids, specs)
             h.append(op)
             res.append(run_op(w, op))
@@ -699,6 +731,7 @@ def oracle(p):
         # replacing operations are checked separately on fresh objects so that no call intervenes
     replace_checks(rng, grids, specs, dom, n, report, counts)
     composite_checks(rng, grids, specs, max(20, n // 3), report, counts)
+    composite_direct_checks(rng, grids, specs, max(24, n // 4), report, counts)
     # de-duplicate by key keeping the shortest history
     best = {}
     for f in fails:
@@ -861,6 +894,77 @@ def composite_checks(rng, grids, specs, n, report, counts):
                                    f"composite call differs from a freshly built composite of the members' current state by {d:.3g}", list(hist))
         except Exception as e:  # noqa
             report(f"C09:SequentialTransform:{hist[-1]['op']}:raises", f"{type(e).__name__}: {str(e)[:120]}", list(hist))
+
+
+def composite_direct_checks(rng, grids, specs, n, report, counts):
+    """disp() / tensor() / forward() of a COMPOSITE (no __call__, hence no pre-hook) right after
+    clear_buffers / condition_ / grid_ on the composite, or data_ on a child, must reflect the children's
+    current (edited) parameters: the composite has to forward the invalidation to its children."""
+    counts["composite_direct_checks"] = 0
+    same_dom = [0, 1, 3, 4, 6]
+    for it in range(n):
+        cname, ccls = rng.choice([("SequentialTransform", S.SequentialTransform), ("MultiLevelTransform", S.MultiLevelTransform)])
+        gi = rng.choice(same_dom)
+        g = grids[gi]
+        kinds = [rng.choice(["svf", "ffd", "svffd", "disp"]) for _ in range(rng.randint(1, 2))]
+        if rng.random() < 0.3:
+            kinds.append("lin")
+        as_param = rng.random() < 0.5
+        hist = [{"op": "composite", "cls": cname, "children": kinds, "grid": gi, "Parameter": as_param}]
+        try:
+            children = []
+            for k in kinds:
+                d = rnd_params(rng, k, g)
+                children.append(make(k, g, params=Parameter(d) if as_param else d))
+            comp = ccls(*children)
+            x = torch.rand((1, 6, 2), generator=torch.Generator().manual_seed(7000 + it)) * 1.2 - 0.6
+            with torch.no_grad():
+                pre = rng.choice(["call", "update", "call"])
+                hist.append({"op": pre})
+                if pre == "call":
+                    comp(x)
+                else:
+                    comp.update()
+                # optimiser-style in-place step on one non-rigid child
+                j = rng.choice([i for i, k in enumerate(kinds) if k != "lin"])
+                children[j].data().add_(rnd_params(rng, kinds[j], g, amp=0.06))
+                hist.append({"op": "edit", "child": j})
+                op = rng.choice(["clear_buffers", "clear_buffers", "condition_", "grid_", "child.data_"])
+                rec = {"op": op}
+                hist.append(rec)
+                if op == "clear_buffers":
+                    comp.clear_buffers()
+                elif op == "condition_":
+                    comp.condition_(rng.randint(1, 5))
+                elif op == "grid_":
+                    gn = rng.choice([q for q in same_dom if q != gi])
+                    rec["grid"] = gn
+                    comp.grid_(grids[gn])
+                else:
+                    jj = rng.randrange(len(children))
+                    rec["child"] = jj
+                    children[jj].data_(rnd_params(rng, kinds[jj], g))
+                    if jj != j:
+                        # the edited child itself has not been invalidated: only the composite may do that
+                        comp.clear_buffers()
+                        hist.append({"op": "clear_buffers"})
+                twin = ccls(comp.grid(), *[fresh_twin(c, k) for c, k in zip(children, kinds)])
+                access = rng.choice(["disp", "tensor", "forward"])
+                hist.append({"op": access})
+                if access == "disp":
+                    got, want = comp.disp(), twin.disp()
+                elif access == "tensor":
+                    got, want = comp.tensor(), twin.tensor()
+                else:
+                    got, want = comp.forward(x), twin.forward(x)
+            counts["composite_direct_checks"] += 1
+            d = maxdiff(got, want)
+            if d > 1e-5:
+                report(f"C09:CompositeTransform.{op}:{access}-stale-child-buffers",
+                       f"{cname}.{access}() right after {op} (no __call__) differs by {d:.3g} from the children's current parameters: "
+                       "the buffered field of an edited child was not invalidated", list(hist))
+        except Exception as e:  # noqa
+            report(f"C09:CompositeTransform.{hist[-1]['op']}:direct-access-raises", f"{type(e).__name__}: {str(e)[:120]}", list(hist))
 
 
 def main():
